@@ -869,3 +869,48 @@ func GenerateDirLeak(r *rand.Rand, idx int) []*GFile {
 	}
 	return files
 }
+
+// GenerateSharedDir: one Taskfile (svc/service.yml) is included several times with different dir: values
+// (three includes of the root, or a diamond) and has itself a nested long-form include WITHOUT dir:.  The dir
+// of that nested include is the directory of service.yml's file, for every namespace and on every load; it
+// must not be the dir of whichever include reached the shared vertex first.
+func GenerateSharedDir(r *rand.Rand, idx int) []*GFile {
+	mkTask := func(path, name string) GTask {
+		return GTask{Name: name, Cmds: []GCmd{{Shell: marker(path, name)}, {Shell: "echo WHERE={{.WHERE}}"}}}
+	}
+	root := &GFile{Path: "Taskfile.yml", Version: "3", Tasks: []GTask{mkTask("Taskfile.yml", "root")}}
+	svc := &GFile{Path: "svc/service.yml", Version: "3", Tasks: []GTask{mkTask("svc/service.yml", "up"), mkTask("svc/service.yml", "default")}}
+	docker := &GFile{Path: "svc/tools/docker.yml", Version: "3", Tasks: []GTask{mkTask("svc/tools/docker.yml", "image")}}
+	docker.Vars = OM{{"WHERE", OM{{"sh", "basename $PWD"}}}}
+	nested := GInclude{NS: "docker", Advanced: true, Taskfile: "./tools/docker.yml"}
+	switch idx % 4 {
+	case 1:
+		nested.Vars = OM{{"IV0", "i1"}} // still long form, still no dir
+	case 2:
+		nested.Aliases = []string{"dk"}
+	case 3: // a second nested include, in short form (tasks keep their own dir, joined with the outer dir)
+		svc.Includes = append(svc.Includes, GInclude{NS: "dshort", Taskfile: "./tools/docker.yml"})
+	}
+	svc.Includes = append([]GInclude{nested}, svc.Includes...)
+	files := []*GFile{root, svc, docker}
+	for _, d := range []string{"api", "web", "db", "svc/tools"} {
+		files = append(files, &GFile{Path: d + "/.keep", Raw: "keep\n"})
+	}
+	inc := func(ns, dir, from string) GInclude {
+		return GInclude{NS: ns, Advanced: true, Taskfile: from, Dir: dir}
+	}
+	switch (idx / 4) % 3 {
+	case 0: // three includes of the same file from the root
+		root.Includes = []GInclude{inc("api", "./api", "./svc/service.yml"), inc("web", "./web", "./svc/service.yml"), inc("db", "./db", "./svc/service.yml")}
+	case 1: // diamond: two intermediate files include it with different dirs
+		a := &GFile{Path: "a.yml", Version: "3", Tasks: []GTask{mkTask("a.yml", "at")}}
+		b := &GFile{Path: "b.yml", Version: "3", Tasks: []GTask{mkTask("b.yml", "bt")}}
+		a.Includes = []GInclude{inc("svc", "./api", "./svc/service.yml")}
+		b.Includes = []GInclude{inc("svc", "./web", "./svc/service.yml")}
+		root.Includes = []GInclude{{NS: "a", Taskfile: "./a.yml"}, {NS: "b", Taskfile: "./b.yml"}}
+		files = append(files, a, b)
+	case 2: // one include with dir, one without (long form), one in short form
+		root.Includes = []GInclude{inc("api", "./api", "./svc/service.yml"), {NS: "plain", Advanced: true, Taskfile: "./svc/service.yml"}, {NS: "short", Taskfile: "./svc/service.yml"}}
+	}
+	return files
+}
